@@ -221,6 +221,21 @@ Definition cm_run_from (cfg : cm_cfg) (st : cm_state) (tr : list (cm_event * lis
 Definition cm_run (cfg : cm_cfg) (tr : list (cm_event * list cm_outcome)) : cm_state :=
   cm_run_from cfg cm_init tr.
 
+(* ---- Manager.Close() while PeerDisappeared messages are still queued in the handler ----
+   Close() sets stopFlag and closes stopSyn; the handler goroutine's select may still take queued
+   messages from inChnl before it takes the stopSyn branch.  A PeerDisappeared message taken
+   before the flag was set is a full Restart ([pre], with the oracle of its Start call); one taken
+   after the flag was set is a Restart whose Register returns at once, i.e. an Unregister ([post]);
+   whatever is still queued when the stopSyn branch runs is dropped.  Every schedule of the handler
+   is one such trace. *)
+Definition cm_conc_trace (pre : list (nat * list cm_outcome)) (post : list nat)
+  : list (cm_event * list cm_outcome) :=
+  map (fun p => (ERestart (fst p), snd p)) pre
+  ++ map (fun id => (EUnregister id, @nil cm_outcome)) post
+  ++ [(EClose, [])].
+Definition cm_conc_close (cfg : cm_cfg) (st : cm_state) (pre : list (nat * list cm_outcome)) (post : list nat)
+  : cm_state := cm_run_from cfg st (cm_conc_trace pre post).
+
 (* ---- observables ---- *)
 (* Manager.Sender() / Receiver(): instances of the active elements with that role *)
 Definition cm_senders (cfg : cm_cfg) (st : cm_state) : list nat :=
